@@ -211,7 +211,7 @@ prop("C08",
      deadline={"quick": 240, "thorough": 3000})
 
 
-_CONFWRAPS = ["getenv", "system", "fork", "vfork", "execve", "execv", "execvp", "popen", "posix_spawn", "fopen", "fdopen", "fclose", "libast_print_error", "libast_print_warning"]
+_CONFWRAPS = ["getenv", "system", "fork", "vfork", "execve", "execv", "execvp", "popen", "posix_spawn", "fopen", "fdopen", "fclose", "libast_print_error", "libast_print_warning", "rand"]
 prop("C09",
      level="exploration",
      technique="bounded exhaustive enumeration (E2) of config files over a line alphabet (incl. %include trees) against a reference reading that emits the expected handler-call trace with state threading; full depth sweep 1..255; private stacks read through TU inclusion of conf.c",
